@@ -295,7 +295,10 @@ impl IRBuilder {
             .map(|(i, term)| match term {
                 Term::Variable(v) => v.clone(),
                 Term::Constant(_) => format!("_const_a{atom_idx}_c{i}"),
-                Term::Placeholder => format!("_ph_{}_{}", atom.relation, i),
+                // Include the body-atom index (as for constants): two atoms over the same
+                // relation with `_` in the same position must not share a column name,
+                // otherwise build_join treats the two wildcards as one join variable.
+                Term::Placeholder => format!("_ph_a{atom_idx}_{}_{}", atom.relation, i),
                 // Aggregates in body atoms refer to the variable they aggregate
                 Term::Aggregate(_, v) => v.clone(),
                 // Arithmetic expressions - use the variables they reference
